@@ -55,7 +55,7 @@ theorem C06_call_order_independent (s₁ s₁' s₂ s₂' : PState) (mults₁ re
     (mr₁ mr₂ : MethodRec) (hmr₁ : s₁.registry.methods[mi₁]? = some mr₁) (hmr₂ : s₂.registry.methods[mi₂]? = some mr₂)
     (hdefs : ∀ d, d ∈ mr₁.defs ↔ d ∈ mr₂.defs) (hnd₁ : mr₁.defs.Nodup) (hnd₂ : mr₂.defs.Nodup)
     (args : List (Kind × Nat)) (cs₁ cs₂ : List Nat)
-    (hst₁ : s₁'.staticId = 0) (hst₂ : s₂'.staticId = 0)
+    (hnm₁ : s₁.cfg.hash = .checked → ¬ s₁.cfg.vptrMap = true) (hnm₂ : s₂.cfg.hash = .checked → ¬ s₂.cfg.vptrMap = true)
     (hreg₁ : Forall₂ (fun (id ci : Nat) => id ∈ c₁.graph.ids ci) (Props.C01.virtIds args) cs₁)
     (hreg₂ : Forall₂ (fun (id ci : Nat) => id ∈ c₂.graph.ids ci) (Props.C01.virtIds args) cs₂)
     (hacc₁ : Forall₂ (fun cl v => cl ∈ c₁.graph.cov.get v) cs₁ m₁.vp)
@@ -67,9 +67,9 @@ theorem C06_call_order_independent (s₁ s₁' s₂ s₂' : PState) (mults₁ re
   have hlen₂ : m₂.vp.length = (Props.C01.virtIds args).length := by
     rw [← forall₂_length hacc₂, ← forall₂_length hreg₂]
   obtain ⟨mr₁', o₁, hm₁, hsel₁, hcall₁⟩ := Props.C01.C01_C02_call_after_update s₁ s₁' mults₁ rest₁ hup₁ hwf₁ hword₁ c₁ hc₁
-    key mi₁ m₁ hfind₁ args cs₁ hst₁ hreg₁ hacc₁ hpos
+    key mi₁ m₁ hfind₁ args cs₁ hnm₁ hreg₁ hacc₁ hpos
   obtain ⟨mr₂', o₂, hm₂, hsel₂, hcall₂⟩ := Props.C01.C01_C02_call_after_update s₂ s₂' mults₂ rest₂ hup₂ hwf₂ hword₂ c₂ hc₂
-    key mi₂ m₂ hfind₂ args cs₂ hst₂ hreg₂ hacc₂ (by omega)
+    key mi₂ m₂ hfind₂ args cs₂ hnm₂ hreg₂ hacc₂ (by omega)
   rw [hmr₁] at hm₁; cases hm₁
   rw [hmr₂] at hm₂; cases hm₂
   rw [← hproj] at hsel₂
